@@ -561,7 +561,18 @@ def do_op(doc, path, op, rng_attr):
         t = t[p]
     k = op[0]
     if k == "get":
-        return t() if hasattr(t, "_to_base") else t      # d[p] of a scalar is the scalar
+        if not hasattr(t, "_to_base"):
+            return t                                     # d[p] of a scalar is the scalar
+        if not path:
+            return t()
+        # d[p1]...[pn]() loads once more; if that load replaces the child (its type changed on disk / in the buffer
+        # through another object) the reference held here is detached and would show the old content.  The
+        # observation is the document's value at the path after that load, navigated without further loads.
+        t()
+        v = doc._to_base()
+        for p in path:
+            v = v[p]
+        return v
     if k == "set":
         key = op[1]
         if rng_attr and key.isidentifier() and not key.startswith("_") and hasattr(t, "_PROTECTED_KEYS") and key not in t._PROTECTED_KEYS:
